@@ -417,6 +417,7 @@ func (p *Plugin) processMask(event *pipeline.Event, curNode *insaneJSON.Node, fm
 		return false
 	}
 	p.sourceBuf = p.sourceBuf[:0]
+	sourceCopied := false
 	for i := range p.config.Masks {
 		if p.hasProcessOrIgnoreFields { // check process/ignore fields lists
 			switch {
@@ -449,9 +450,11 @@ func (p *Plugin) processMask(event *pipeline.Event, curNode *insaneJSON.Node, fm
 		}
 		shouldApplyMask := mask.Re != "" && len(mask.Groups) > 0
 		if shouldApplyMask {
-			if len(p.sourceBuf) == 0 {
+			if !sourceCopied {
 				// copy node value to process in mask only once when required
+				// (an empty buffer does not mean "not copied": a mask can cut the whole value)
 				p.sourceBuf = append(p.sourceBuf[:0], value...)
+				sourceCopied = true
 			}
 			// check value for mask application and apply mask if it matches
 			// maskBuf is used for allocation optimization, we cannot use only sourceBuf
